@@ -32,6 +32,7 @@ def run(tier):
     for S, W, live in ([(3, 2, True), (4, 3, False)] + ([(4, 2, True), (5, 3, False)] if thorough else [])):
         r = vlib.tlc_ok(vlib.run_tlc("Gen", gcfg(S, W, "TRUE", live), timeout=900), "Gen")
         run.add_tlc(r, "Gen S=%d W=%d%s" % (S, W, " +liveness" if live else ""))
+    vlib.coverage_audit(run, "Gen", [gcfg(3, 2, "TRUE", False)], ["MainAdd", "MainOffer", "MainSentAll", "MainExit", "Recv", "Open", "WriteClose", "Done"])
     r = vlib.run_tlc("Gen", gcfg(2, 2, "FALSE", False), timeout=300)
     if r.violated not in ("FilesWhereTold", "NothingElsewhere"):
         raise vlib.InfraError("vacuity guard: ignoring -o should violate FilesWhereTold/NothingElsewhere, got %s" % r.violated)
@@ -44,7 +45,7 @@ def run(tier):
         for n in ([20000, 8, 4096, 1000000] if thorough else [20000, 4096]):
             if n == 1000000 and s > 17:
                 continue
-            for o in ([None, "data", "./a/b/c", "ABS", "pre"] if thorough else [rng.choice([None, "ABS"]), rng.choice(["data", "./a/b/c", "pre"])]):
+            for o in ([None, "data", "./a/b/c", "ABS", "pre"] if thorough else ([None, "pre"] if n == 20000 else ["ABS", rng.choice(["data", "./a/b/c"])])):
                 scen.append((s, n, o, rng.choice([None, "0", "0-1"]), rng.choice([1, 2, 16])))
     events = []
     metas = []
@@ -59,9 +60,10 @@ def run(tier):
         elif o == "pre":
             reqdir = "pre/existing"
             os.makedirs(os.path.join(cwd, reqdir))
+            # stale files from an earlier, longer run: a regenerated sample must not keep their tail
             for nm in ("random0.bin", "stale.bin"):
                 with open(os.path.join(cwd, reqdir, nm), "wb") as fh:
-                    fh.write(b"stale")
+                    fh.write(b"stale" * (n // 8 + 100))
             args += ["-o", reqdir]
         else:
             reqdir = os.path.normpath(o)
